@@ -159,11 +159,14 @@ mod introspect_support {
         let text = iface.to_string();
         // the listed finding (enum with a commented variant rendered without commas) covers this
         // interface only if putting those commas in is all it takes
-        let only_commas = want.has_commented_variant() && idl::Interface::try_from(simnet::idlref::add_missing_enum_commas(&text).as_str()).map_or(false, |p| lift(&p) == want);
+        // comments on the fields of inline types nested in a type are not among those the statements
+        // name (the parser drops them): compared without them
+        let want = want.without_nested_comments();
+        let only_commas = want.has_commented_variant() && idl::Interface::try_from(simnet::idlref::add_missing_enum_commas(&text).as_str()).map_or(false, |p| lift(&p).without_nested_comments() == want);
         let node = if only_commas { ":custom-enum-with-commented-variant" } else { "" };
         match idl::Interface::try_from(text.as_str()) {
             Ok(p) => {
-                let got = lift(&p);
+                let got = lift(&p).without_nested_comments();
                 report(sink, what, &format!("interface-parses-back-differently{node}"), format!("{got:?}"), format!("{want:?}"), got == want);
             }
             Err(e) => sink.fail(format!("introspect:interface-text-not-parseable{node}"), format!("{what}: the assembled interface renders as `{}` which does not parse: {e}", simnet::show(text.as_bytes())), json!({"interface": what})),
